@@ -37,6 +37,7 @@ THEOREMS = [
     "c06_each_line_message_or_rejection",
     "c06_two_writers_line_count",
     "c06_instances_independent",
+    "c06_connections_one_after_another",
     "c06_history_irrelevant",
     "c06_stall_irrelevant",
 ]
@@ -69,7 +70,8 @@ ASSUMPTIONS = [
 ]
 
 UNSER = ["object", "dict-object", "dict-set", "dict-bytes", "tuple-key", "typed-object", "lone-surrogate",
-         "deep-dict", "deep-list", "repr-raises", "self-reference"]
+         "deep-dict", "deep-list", "repr-raises", "self-reference", "top-mixed-keys", "top-tuple-keys", "top-int-none-keys",
+         "items-raises", "iter-raises"]
 # every builtin exception class, raised at every place the writer touches a foreign object (HARDEN2 class F)
 UNSER_RAISES = [f"raises:{c}:{w}" for c in O.EXC_CLASSES for w in O.RAISE_WHERE]
 PRELUDES = ["dumps-indent", "dumps-sort_keys", "dumps-all", "dumps-default", "dumps-fails", "dump-indent", "dump-sort_keys", "loads",
@@ -268,6 +270,18 @@ class Writer(Suite):
         out.append({"items": base, "close": True, "aclose_raises": True})
         out.append({"items": [], "close": True, "aclose_raises": True})
         out.append({"items": base, "close": True, "late_send_json": base[0]})
+        # a SECOND and a THIRD connection on the same client / transport object after a first one that ended in every way: the
+        # consumer closed its write stream mid-session, left without closing it, the child closed its stdin, a write failed,
+        # closing the pipe failed, the last thing sent was unserialisable
+        firsts = [{"items": base[:2], "close": True}, {"items": base[:1], "close": False}, {"items": [], "close": True},
+                  {"items": six, "close": True, "breaks_at": 1}, {"items": six, "close": False, "breaks_at": 0},
+                  {"items": base, "close": True, "fail_sends": [1]}, {"items": base, "close": True, "aclose_raises": True},
+                  {"items": base[:1] + [{"k": "unser", "how": "object"}], "close": True},
+                  {"items": [{"k": "unser", "how": "deep-dict"}], "close": False}]
+        for api in ("client", "transport", "function"):
+            for f in firsts:
+                out.append({"items": base + base[:1], "close": True, "api": api, "prior": [f]})
+                out.append({"items": base[1:], "close": rng.random() < 0.5, "api": api, "prior": [f, {"items": base[:2], "close": True}]})
         n = 1500 if budget == "quick" else 8000
         for _ in range(n):
             items = [rand_item(rng, digits) for _ in range(rng.randrange(0, 9))]
@@ -382,6 +396,18 @@ class Writer(Suite):
 
     # ------------------------------------------------------------------ property oracle
     def oracle(self, case, o):
+        if case.get("prior"):  # every connection on the object is judged as the property says, by its own items and ending
+            if "harness_error" in o:
+                return ("client-raised", f"the stdio client raised {o['harness_error']} while writing (connection {o.get('connection')})", None)
+            n = len(case["prior"]) + 1
+            for k, (spec, ob) in enumerate(zip(list(case["prior"]) + [case], o.get("earlier", []) + [o])):
+                r = self._oracle_one(spec, ob)
+                if r is not None:
+                    return (r[0], r[1] + f" [connection {k + 1} of {n} on the same {case.get('api', 'client')} object]", r[2])
+            return None
+        return self._oracle_one(case, o)
+
+    def _oracle_one(self, case, o):
         want = O.expected_lines(case["items"])
         # writes the child refused (a transient pipe error, or the child closed its stdin) cannot arrive: nothing is
         # demanded of THOSE messages, everything else must still be one intact line each, in order
